@@ -91,6 +91,106 @@ MUTATIONS = [
         "                compared_value = FeeValue(is_unknown=True)\n                ins = _mirrored_comparison(ins)\n",
         "                compared_value = FeeValue(is_unknown=True)\n",
     ),
+    # ---- twin audit: same-typed names written for each other (t*), swapped argument order / tuple components (a*)
+    (
+        "t1",
+        "TWIN _mirrored_comparison: Greater -> LessE (for Less)",
+        f"{TC}/fee_field.py",
+        "    if isinstance(ins, Greater):\n        return Less()\n",
+        "    if isinstance(ins, Greater):\n        return LessE()\n",
+    ),
+    (
+        "t2",
+        "TWIN _get_asserted_fee: field-first branch reads the constant from arg1",
+        f"{TC}/fee_field.py",
+        "            elif is_value_matches_key(key, arg1):\n                is_int, value = is_int_push_ins(arg2.instruction)\n",
+        "            elif is_value_matches_key(key, arg1):\n                is_int, value = is_int_push_ins(arg1.instruction)\n",
+    ),
+    (
+        "t3",
+        "TWIN int_fields._get_asserted_single: the two wrapper calls exchanged",
+        f"{TC}/int_fields.py",
+        "            return self._get_asserted_groupsizes(ins_stack_value)\n        return self._get_asserted_groupindices(ins_stack_value)\n",
+        "            return self._get_asserted_groupindices(ins_stack_value)\n        return self._get_asserted_groupsizes(ins_stack_value)\n",
+    ),
+    (
+        "t4",
+        "TWIN int_fields (GroupSize): universe of the GroupIndex key",
+        f"{TC}/int_fields.py",
+        "        U = list(self.UNIVERSAL_SETS[self.GROUP_SIZE_KEY])\n",
+        "        U = list(self.UNIVERSAL_SETS[self.GROUP_INDEX_KEY])\n",
+    ),
+    (
+        "t5",
+        "TWIN txn_types: TypeEnum (field first) complemented in APPLICATION_TRANSACTION_TYPES",
+        f"{TC}/txn_types.py",
+        "                compared_type = _known_constant(transaction_type_to_tealer_type, value_3)\n"
+        "                if compared_type is not None:\n"
+        "                    true_values, false_values = set([compared_type]), set(\n"
+        "                        TYPEENUM_TRANSACTION_TYPES\n",
+        "                compared_type = _known_constant(transaction_type_to_tealer_type, value_3)\n"
+        "                if compared_type is not None:\n"
+        "                    true_values, false_values = set([compared_type]), set(\n"
+        "                        APPLICATION_TRANSACTION_TYPES\n",
+    ),
+    (
+        "t6",
+        "TWIN txn_types: TypeEnum (field first) decodes the constant of the field operand",
+        f"{TC}/txn_types.py",
+        "            if is_value_matches_key(key, arg1, TypeEnum) and value_3 is not None:\n"
+        "                compared_type = _known_constant(transaction_type_to_tealer_type, value_3)\n",
+        "            if is_value_matches_key(key, arg1, TypeEnum) and value_3 is not None:\n"
+        "                compared_type = _known_constant(transaction_type_to_tealer_type, value_2)\n",
+    ),
+    (
+        "t7",
+        "TWIN addr_fields: global ZeroAddress is the universal set",
+        f"{TC}/addr_fields.py",
+        "            # ZeroAddress\n            return self._null_set()\n",
+        "            # ZeroAddress\n            return self._universal_set()\n",
+    ),
+    (
+        "a1",
+        "PAIR int_fields (GroupSize): (complement, asserted) returned",
+        f"{TC}/int_fields.py",
+        "            return set(asserted_values), set(U) - set(asserted_values)\n        return set(U), set(U)\n\n    def _get_asserted_groupindices(",
+        "            return set(U) - set(asserted_values), set(asserted_values)\n        return set(U), set(U)\n\n    def _get_asserted_groupindices(",
+    ),
+    (
+        "a2",
+        "ARGS int_fields (GroupIndex): set difference asserted - U",
+        f"{TC}/int_fields.py",
+        "            return set(asserted_values), set(U) - set(asserted_values)\n        return set(U), set(U)\n\n    def _get_asserted_single(",
+        "            return set(asserted_values), set(asserted_values) - set(U)\n        return set(U), set(U)\n\n    def _get_asserted_single(",
+    ),
+    (
+        "a3",
+        "PAIR txn_types: Eq returns (false, true), Neq (true, false)",
+        f"{TC}/txn_types.py",
+        "                if isinstance(ins1, Eq):\n                    return true_values, false_values\n                return false_values, true_values\n",
+        "                if isinstance(ins1, Eq):\n                    return false_values, true_values\n                return true_values, false_values\n",
+    ),
+    (
+        "a4",
+        "ARGS txn_types: ApplicationID set difference {ApplCreation} - APPLICATION",
+        f"{TC}/txn_types.py",
+        "            return set(APPLICATION_TRANSACTION_TYPES) - set(\n                [TealerTransactionType.ApplCreation]\n            ), set([TealerTransactionType.ApplCreation])\n",
+        "            return set([TealerTransactionType.ApplCreation]) - set(\n                APPLICATION_TRANSACTION_TYPES\n            ), set([TealerTransactionType.ApplCreation])\n",
+    ),
+    (
+        "a5",
+        "PAIR addr_fields: Eq and Neq pairs exchanged",
+        f"{TC}/addr_fields.py",
+        "            return asserted_addresses, self._universal_set()\n        return self._universal_set(), asserted_addresses\n",
+        "            return self._universal_set(), asserted_addresses\n        return asserted_addresses, self._universal_set()\n",
+    ),
+    (
+        "a6",
+        "PAIR fee_field: (value, is_int) = is_int_push_ins(..) in the constant-first branch",
+        f"{TC}/fee_field.py",
+        "            elif is_value_matches_key(key, arg2):\n                is_int, value = is_int_push_ins(arg1.instruction)\n",
+        "            elif is_value_matches_key(key, arg2):\n                value, is_int = is_int_push_ins(arg1.instruction)\n",
+    ),
 ]
 
 
